@@ -30,6 +30,13 @@ TEMPLATES = [
     ("let-syntax", "(let-syntax ((dup (syntax-rules () ((_ e) (let ((tmp e)) (%l tmp tmp U2)))))) (dup U1))", "1", "2", "(1 1 2)"),
     ("letrec-syntax", "(letrec-syntax ((cnt (syntax-rules () ((_) 0) ((_ x r ...) (%add 1 (cnt r ...)))))) (%l (cnt U1 U2 U1) U1))", "1", "2", "(3 1)"),
     ("nested-use", "(my-or (my-or #f #f) (begin (swap! U1 U2) (my-or #f (%l U1 U2))))", "1", "2", "(2 1)"),
+    # a user variable in the position where a macro looks for a literal: it is a literal only if it denotes the same binding as in
+    # the macro definition, so renaming the variable TO the literal's name must not turn it into the keyword (R7RS 4.3.2)
+    ("kw-pos", "(%l (kw U2 U1) (kw U1 U2))", "1", "2", "((var 2 1) (var 1 2))"),
+    ("std-cond-else", "(%l (cond (U2 U1) (#t 'fallback)))", "5", "#f", "(fallback)"),
+    ("std-cond-arrow", "(%l (cond (#f 0) ((%l U1) U2 (%add U1 1))))", "5", "2", "(6)"),
+    ("std-guard-else", "(guard (exn (U2 'first) (#t (%l 'second U1))) (raise 'boom))", "5", "#f", "(second 5)"),
+    ("std-case-arrow", "(%l (case U1 ((5) U2 (%add U1 1)) ((6) 'six)))", "5", "2", "(6)"),
     ("else-lit-er", "(%l (else-lit-er else) (else-lit-er U1))", "1", "2", "(is-else not-else)"),
 ]
 
